@@ -572,8 +572,16 @@ fn drive_connection(
                 return false;
             }
             Ok(_) => continue,
-            Err(ref e) if would_block(e) => return false,
-            Err(ref e) if interrupted(e) => return drive_connection(conn, wbuf, msgs),
+            // Nothing was written: keep the buffer so that it is sent first on the next attempt,
+            // instead of dropping it (which would tear a frame whose first part was already sent).
+            Err(ref e) if would_block(e) => {
+                wbuf.replace(buf);
+                return false;
+            }
+            Err(ref e) if interrupted(e) => {
+                wbuf.replace(buf);
+                return drive_connection(conn, wbuf, msgs);
+            }
             Err(e) => {
                 error!(?conn, error = %e, "write failed");
                 return true;
